@@ -406,6 +406,13 @@ func WalkSkip(fs filesystem.FileSystem, limit int64, skip func(path string) bool
 				}
 			case e.Type()&iofs.ModeSymlink != 0:
 				n.Kind = "link"
+				if rl, ok := fs.(interface{ ReadLink(string) (string, error) }); ok {
+					t, err := rl.ReadLink(p)
+					if err != nil {
+						n.Err = "readlink: " + err.Error()
+					}
+					n.Link = t
+				}
 			case e.Type().IsRegular():
 				n.Kind = "file"
 				if info, err := e.Info(); err == nil {
